@@ -253,6 +253,16 @@ def run(tier, seed, rng):
             if 'f' in a or 'f' in b:
                 extra.append(dict(src_d=f"({a} {op} {b})", src_l=f"({a} {op} {b})".replace('f0', 'pkt.f0').replace('f1', 'pkt.f1'),
                                   env=rng.choice(envs[:2]) if op == '**' else rng.choice(envs), symbolic=False))
+    # oracle-only: sequence-valued operands (concatenation and repetition do not commute): constants on either side of a
+    # sequence-valued sub-expression, against eval of the same text
+    seqs = [('f3[0:2]', '[7]'), ('f3[1:]', '[7, 8]'), ('f2[0:1]', "b'z'"), ('f2[1:]', "b'yz'")]
+    for sub, const in seqs:
+        for tmpl in ('({c} + {s})', '({s} + {c})', '(({c} + {s}) + {c})', '({c} + ({s} + {s}))', '(2 * {s})', '({s} * 2)',
+                     '(({c} + {s})[0])', '(({s} + {c})[0])', '(({c} + {s}).__len__())'):
+            txt = tmpl.format(c=const, s=sub)
+            for env in envs:
+                extra.append(dict(src_d=txt, src_l=txt.replace('f2', 'pkt.f2').replace('f3', 'pkt.f3').replace('.__len__()', '.__len__()'),
+                                  env=env, more_envs=[x for x in envs if x is not env], symbolic=False))
     parts = shard(cases + extra, (len(cases) + len(extra)) // NPROC + 1)
     outs = run_impl_parallel(os.path.join(VERIF, 'harness', 'impl_expr.py'), [dict(cases=p) for p in parts])
     outcomes = [o for p in outs for o in p]
@@ -302,8 +312,8 @@ def run(tier, seed, rng):
                       "reflected methods too), every unary operator, len/truth/indexing of a bytes and a list field; every ordered pair of binary "
                       "operators nested on either side; random trees to depth 5 with chooses (list and dict form) and if_true_then_else; three "
                       "environments; per case: the postfix program bisturi compiled vs the model's, its result (value or exception kind) vs the "
-                      "model's and vs eval of the same python text, and a run on symbolic operands (operand order); true division and power "
-                      "against eval only"),
+                      "model's and vs eval of the same python text, and a run on symbolic operands (operand order); true division and power, and "
+                      "concatenation / repetition with sequence-valued sub-expressions on either side, against eval only"),
                 samples=[dict(case=cases[i], outcome=outcomes[i]) for i in (0, len(cases) // 2, len(cases) - 1)],
                 distribution=dist, failures=failures, disagreements=disagreements)
 
